@@ -148,6 +148,22 @@ OPEN_STEPS = [
     ("bail", r"anyhow::bail!|\bbail!"),
 ]
 
+# `Nomt::begin_session` (unit Q45): the access read guard must be taken BEFORE anything that opens a beatree read
+# transaction (the rollback delta builder, the merkle updater) — a writer that got the lock waits in `block_until_zero`
+# for every read transaction, a `begin_session` queued behind that writer must therefore not hold one yet.
+SESSION_STEPS = [
+    ("guard_read", r"RwLock::read_arc\s*\(\s*&\s*self\s*\.\s*access_lock"),
+    ("delta_builder", r"\.\s*delta_builder\s*\("),
+    ("root_read", r"self\s*\.\s*root\s*\(\s*\)"),
+    ("updater_begin", r"merkle_update_pool\s*\.\s*begin\b"),
+]
+# fields of `struct Session` in DECLARATION order = drop order: the two owners of read transactions must be dropped before the read guard
+FIELD_STEPS = [
+    ("field_updater", r"\bmerkle_updater\s*:"),
+    ("field_delta", r"\brollback_delta\s*:"),
+    ("field_guard", r"\baccess_guard\s*:"),
+]
+
 # (lean name, file, fn name, enclosing `impl X` (or None), steps, allow_loops)
 TARGETS = [
     ("finished_commit", "nomt/src/lib.rs", "commit", "FinishedSession", LIB_STEPS, False),
@@ -155,6 +171,7 @@ TARGETS = [
     ("overlay_commit", "nomt/src/lib.rs", "commit", "Overlay", LIB_STEPS, False),
     ("overlay_try_commit", "nomt/src/lib.rs", "try_commit_nonblocking", "Overlay", LIB_STEPS, False),
     ("nomt_rollback", "nomt/src/lib.rs", "rollback", "Nomt", LIB_STEPS, True),
+    ("nomt_begin_session", "nomt/src/lib.rs", "begin_session", "Nomt", SESSION_STEPS, False),
     ("store_commit", "nomt/src/store/mod.rs", "commit", "Store", STORE_STEPS, False),
     ("sync", "nomt/src/store/sync.rs", "sync", "Sync", SYNC_STEPS, False),
     ("meta_write", "nomt/src/store/meta.rs", "write", "Meta", META_STEPS, False),
@@ -175,7 +192,7 @@ TARGETS = [
 
 
 ALL_NAMES = []
-for _steps in (LIB_STEPS, SYNC_STEPS, STORE_STEPS, META_STEPS, RECOVER_STEPS, WRITEOUT_STEPS, CTRL_STEPS, OPEN_STEPS):
+for _steps in (LIB_STEPS, SYNC_STEPS, STORE_STEPS, META_STEPS, RECOVER_STEPS, WRITEOUT_STEPS, CTRL_STEPS, OPEN_STEPS, SESSION_STEPS, FIELD_STEPS):
     for _n, _ in _steps:
         if _n not in ALL_NAMES:
             ALL_NAMES.append(_n)
@@ -356,6 +373,36 @@ def extract(lean, rel, name, impl, steps, allow_loops):
     return what, out
 
 
+def extract_struct(rel, name, steps):
+    """the fields of `struct name` matching `steps`, in declaration order (= the order in which Rust drops them)"""
+    # (the raw file: the instrumentation stripper works on statements and would swallow the field that follows a cfg'd field)
+    try:
+        with open(os.path.join(REPO, rel)) as fh:
+            raw = fh.read()
+    except OSError:
+        raise StepError(f"{rel}: file not found in {REPO}")
+    text = strip_noise(raw)
+    hits = list(re.finditer(r"\bstruct\s+" + re.escape(name) + r"\s*(?:<[^>{]*>)?\s*\{", text))
+    if len(hits) != 1:
+        raise StepError(f"{rel}: expected exactly one `struct {name}`, found {len(hits)}")
+    j = hits[0].end() - 1
+    depth, k = 0, j
+    while k < len(text):
+        if text[k] == "{":
+            depth += 1
+        elif text[k] == "}":
+            depth -= 1
+            if depth == 0:
+                break
+        k += 1
+    body = text[j + 1:k]
+    found = sorted((m.start(), sname) for sname, rx in steps for m in re.finditer(rx, body))
+    if len(found) != len(steps):
+        raise StepError(f"{rel}: struct {name}: expected each of {[n for n, _ in steps]} exactly once, found {[n for _, n in found]}")
+    what = f"{rel}:{raw.count(chr(10), 0, hits[0].start()) + 1} struct {name} (field declaration order)"
+    return what, [(n, False, 0, "", False) for _, n in found]
+
+
 def lean_str(s):
     return '"' + s.replace("\\", "\\\\").replace('"', '\\"') + '"'
 
@@ -367,6 +414,11 @@ def generate():
         rows = ",\n".join(f"  ⟨.{s}, {'true' if f else 'false'}, {d}, {lean_str(u)}, {'true' if lp else 'false'}⟩" for (s, f, d, u, lp) in out)
         parts.append(f"/-- `{what}` -/\ndef {lean} : List Step := [\n{rows}]\n")
         report.append(f"{lean} <- {what}: " + " ".join(s + ("?" if f else "") for (s, f, _, _, _) in out))
+    for (lean, rel, name, steps) in [("session_fields", "nomt/src/lib.rs", "Session", FIELD_STEPS)]:
+        what, out = extract_struct(rel, name, steps)
+        rows = ",\n".join(f"  ⟨.{s}, false, 0, \"\", false⟩" for (s, _, _, _, _) in out)
+        parts.append(f"/-- `{what}` -/\ndef {lean} : List Step := [\n{rows}]\n")
+        report.append(f"{lean} <- {what}: " + " ".join(s for (s, _, _, _, _) in out))
     header = ("/-!\nGENERATED by tools/gen_steps.py from the Rust sources — do not edit.\n"
               "The effectful steps of the commit / rollback / sync / recovery functions in the order the CURRENT source performs them.\n-/\n"
               "namespace Nomt.GenOrder\n\n"
